@@ -712,6 +712,16 @@ func ChildViews(tx *bbolt.Tx, s *Stores, m *Model, names, roles []string) []Viol
 		validIds []string
 	}
 	for _, id := range U.People {
+		var le PX
+		found, lerr := s.PX.LoadEntity(tx, id, &le)
+		if lerr != nil || found != containsStr(all, id) || (found && le.Name != m.People[id].Name) {
+			bad("load-entity:"+StPX, "px.LoadEntity(%q) found=%v err=%v, parent entity listed=%v", id, found, lerr, containsStr(all, id))
+		}
+		var ls Staff
+		found, lerr = s.Staff.LoadEntity(tx, id, &ls)
+		if lerr != nil || found != containsStr(staff, id) {
+			bad("load-entity:"+StStaff, "staff.LoadEntity(%q) found=%v err=%v, has staff data=%v", id, found, lerr, containsStr(staff, id))
+		}
 		_, e1 := s.People.LoadById(tx, id)
 		_, e2 := s.Staff.LoadById(tx, id)
 		_, e3 := s.PX.LoadById(tx, id)
